@@ -46,7 +46,9 @@ def with_repeats(seed):
     for _ in range(r.randint(0, 2)):
         if not pool:
             break
-        op = r.choice(["-", "/", "%", "**", "<<", ">>", "-", "**"])
+        # (no shifts here: exchanging the operands would make the shift amount a run-time value, which the
+        #  arithmetic model leaves unspecified outside 0..31)
+        op = r.choice(["-", "/", "%", "**", "-", "**"])
         x = ("var", r.choice(pool))
         y = ("var", r.choice(pool)) if r.random() < 0.4 else ("int", r.choice([2, 3, 5, 7]))
         if y == x:
@@ -81,6 +83,12 @@ def near_miss(e, r):
             walk(y, path + (k,))
 
     walk(e, ())
+    # exchanging the operands of a shift would make the amount a run-time value (unspecified outside 0..31)
+    def node_at(x, path):
+        for k in path:
+            x = x[k]
+        return x
+    paths = [p_ for p_ in paths if not (node_at(e, p_)[0] == "bin" and node_at(e, p_)[1] in ("<<", ">>"))]
     if not paths:
         return None
     path = r.choice(paths)
